@@ -200,6 +200,36 @@ def render(x):
     return str(x)
 
 
+U2 = [1, None, [1, 2], ("set", [2, 3]), "a", [], ("map", [(1, 2)])]
+
+
+def check_structural(agg, lst):
+    """functions that only rearrange elements must treat every element as
+    opaque: nested lists, sets, maps and NULL included"""
+    want_strict(agg, "reverse", {"a": lst}, lst[::-1])
+    want_strict(agg, "enumerate", {"a": lst},
+                [[i, x] for i, x in enumerate(lst)])
+    want_strict(agg, "pairs", {"a": lst},
+                [[lst[i], lst[i + 1]] for i in range(len(lst) - 1)])
+    want_strict(agg, "map_list", {"a": lst}, [[x] for x in lst])
+    want_strict(agg, "zip", {"a": lst, "b": lst},
+                [[x, x] for x in lst])
+    want_strict(agg, "append_all", {"a": lst, "b": lst}, lst + lst)
+    want_strict(agg, "unique", {"a": lst + lst}, dedupe_first(lst))
+    if lst:
+        want_strict(agg, "first_last", {"a": lst},
+                    [lst[0], lst[-1], lst[1:]])
+        want_strict(agg, "reduce", {"a": lst},
+                    functools.reduce(lambda x, y: [x, y], lst))
+        for n in (1, 2):
+            want_strict(agg, "chunks", {"a": lst, "n": n},
+                        [lst[i:i + n] for i in range(0, len(lst), n)])
+    flat = []
+    for x in lst:
+        flat += x if isinstance(x, list) else [x]
+    want_strict(agg, "flatten", {"a": lst}, flat)
+
+
 def check_setops(agg, a, b):
     """a, b plain lists (used as lists and as sets)"""
     ea, eb = dedupe_first(a), dedupe_first(b)
@@ -273,6 +303,9 @@ def explore_lists(chunk):
             agg.count("cases")
         for ms in chunk["multisets"]:
             check_stats(agg, ms)
+            agg.count("cases")
+        for lst in chunk.get("nested", []):
+            check_structural(agg, lst)
             agg.count("cases")
     finally:
         core.disarm()
@@ -380,6 +413,11 @@ def replay(case, verbose=False):
                 "permutations"):
         a = core.Agg()
         check_stats(a, tuple(kw["a"]))
+    elif any(isinstance(x, (list, tuple)) or x is None
+             for x in (kw.get("a") or [])) and fn != "flatten":
+        a = core.Agg()
+        check_structural(a, kw["a"] if fn != "unique"
+                         else kw["a"][:len(kw["a"]) // 2])
     else:
         a = core.Agg()
         base = kw["a"]
@@ -430,6 +468,11 @@ def main(tier, seed):
         jobs.append({"lists": [], "pairs": c, "multisets": []})
     for c in core.chunked(multisets, core.NPROC * 2):
         jobs.append({"lists": [], "pairs": [], "multisets": c})
+    nested = [list(t) for n in range(0, 4)
+              for t in itertools.product(U2, repeat=n)]
+    for c in core.chunked(nested, core.NPROC):
+        jobs.append({"lists": [], "pairs": [], "multisets": [],
+                     "nested": c})
     agg = core.pmap(explore_lists, jobs)
     agg.merge(core.pmap(explore_ints, [
         {"ints": c, "ranges": r} for c, r in zip(
@@ -439,7 +482,10 @@ def main(tier, seed):
     core.finish(
         PID, tier, seed, agg, t0,
         rule=(f"{len(lists)} lists (all of length <= {maxl} over {U}), "
-              f"{len(pairs)} list/set pairs for the set algebra and zip, "
+              f"{len(nested)} lists of length <= 3 over elements that are "
+              f"themselves lists/sets/maps/NULL for the rearranging "
+              f"functions, {len(pairs)} list/set pairs for the set algebra "
+              f"and zip, "
               f"all distinct permutations of all {len(multisets)} multisets "
               f"of size <= 5 over {NUMS} for the statistics, all pairs of "
               f"{len(I80)} ints up to 2^80 for gcd/lcm (+ pow with 9 "
